@@ -14,6 +14,10 @@
 //!   filter-badutf8-sel / -count   the same two on lines that are not valid UTF-8: the line the filter
 //!                  judges is the lossily decoded text (each invalid sequence = U+FFFD, exactly
 //!                  `String::from_utf8_lossy`), so a wildcard gap spans such bytes like any other text
+//!   filter-big-input-sel / -stdin / -count   the REAL BINARY on 9 KB .. 2 MB files (`--file P` and `< P`):
+//!                  lines and characters across its 8 KiB read buffer, lines longer than the buffer;
+//!                  selected lines byte for byte in input order, `--file P` = `< P`, `| count`
+//!                  C02/selected-lines-differ, C02/file-differs-from-stdin, C02/count-differs
 //!   any panic / hang                                              C02/crash
 use super::common::*;
 use super::kwgen::{self, Kind, Passes};
@@ -1676,7 +1680,6 @@ fn gen_big_input(r: &mut Rng, kws: &[(Kind, String)], target: usize, huge_max: u
             None => {
                 if n > 0 {
                     fill(r, n - 1, &mut pad);
-                    // (filler characters are never white space at the end of the file's last byte: irrelevant)
                     out.extend_from_slice(&pad);
                     out.push(b'\n');
                 }
@@ -2022,6 +2025,7 @@ pub fn check(ctx: &mut Ctx) {
 #[cfg(test)]
 mod big_tests {
     use super::*;
+    /// the generator of filter-big-input puts what it says on multiples of 8192
     #[test]
     fn big_generator() {
         let mut top = Rng::new(12345);
@@ -2049,13 +2053,9 @@ mod big_tests {
                 }
                 *feats.entry(f.0).or_insert(0usize) += 1;
             }
+            // every line is one the oracle judges
             for l in inp.bytes.split_inclusive(|b| *b == b'\n') {
-                let d = String::from_utf8_lossy(l);
-                if outside_oracle(&d) {
-                    let c: Vec<char> = d.chars().filter(|c| kwgen::nonascii_cased(*c) && !CASED_OK.contains(c)).collect();
-                    println!("case {} query {:?} kws {:?}: chars {:?} in {:?}", case, q, kws, c, &d.chars().take(80).collect::<String>());
-                    break;
-                }
+                assert!(!outside_oracle(&String::from_utf8_lossy(l)), "case {} query {:?}", case, q);
             }
         }
         println!("{:?}", feats);
